@@ -944,8 +944,22 @@ binary_add_fns: dict[str, BinaryCallable] = {
     "-": lambda x, y: x - y,
 }
 
+def binary_round_fn(
+    x: Union[int, float], y: Union[int, float]
+) -> Union[int, float]:
+    # The number of digits is an integer (MediaWiki truncates it).  Python's
+    # round() of an int to a hugely negative number of digits computes
+    # 10 ** -digits first, which never finishes for e.g. -99999999999999999999.
+    digits = int(y)
+    if digits < -400:
+        return 0
+    if digits > 400:
+        return x
+    return round(x, digits)
+
+
 binary_round_fns: dict[str, BinaryCallable] = {
-    "round": round,  # type:ignore
+    "round": binary_round_fn,
 }
 
 binary_cmp_fns: dict[str, BinaryCallable] = {
